@@ -1,3 +1,4 @@
+import Props.C14Formulas
 import Proofs.Core
 import Proofs.NNSpecLemmas
 import SynapModel.Ops
